@@ -211,7 +211,8 @@ def _val_world():
     fw = FlumineSimulation(client=cl)
     st = BaseStrategy(market_filter={"markets": []}, name="val")
     bf = clients.BetfairClient(betfairlightweight.APIClient("verif", "x", app_key="k", certs="/nonexistent"))
-    _W.update(fw=fw, cl=cl, bf=bf, st=st, ctl=OrderValidation(fw), AccountDetails=AccountDetails)
+    bd = clients.BetdaqClient(None, username="valbd")
+    _W.update(fw=fw, cl=cl, bf=bf, bd=bd, st=st, ctl=OrderValidation(fw), AccountDetails=AccountDetails)
     return _W
 
 
@@ -220,6 +221,12 @@ def _mk_order(W, ot, side, price, size, liab, ladder, line):
     from flumine.order.ordertype import LimitOrder, LimitOnCloseOrder, MarketOnCloseOrder
 
     tr = Trade("1.1", 1, 0, W["st"])
+    if ladder == "BETDAQ":
+        from flumine.order.ordertype import BetdaqLimitOrder
+
+        o = tr.create_betdaq_order(side, BetdaqLimitOrder(price, size, betdaq_runner_id=701, runner_reset_count=0, withdrawal_sequence_number=0))
+        o.update_client(W["cur_client"])
+        return o
     if ot == "L":
         kw = {}
         if ladder == "LINE_RANGE":
@@ -243,6 +250,10 @@ def _ladder_set(ladder, line):
             _LS[key] = {Decimal(h) / 100 for h in refs.CLASSIC}
         elif ladder == "FINEST":
             _LS[key] = {Decimal(h) / 100 for h in refs.FINEST}
+        elif ladder == "BETDAQ":
+            import flumine.utils as fu
+
+            _LS[key] = set(refs.betdaq_ticks(fu.BETDAQ_CUTOFFS))
         else:
             _LS[key] = set(refs.line_ticks(*line))
     return _LS[key]
@@ -272,7 +283,7 @@ def _val_chunk(cases):
         kind = "sim"
         if ":" in cur:
             cur, kind = cur.split(":")
-        client = W["bf"] if kind == "betfair" else W["cl"]
+        client = W["bf"] if kind == "betfair" else (W["bd"] if kind == "betdaq" else W["cl"])
         W["cur_client"] = client
         if cur == "NONE":
             client.account_details = None
@@ -292,7 +303,7 @@ def _val_chunk(cases):
             # an unexpected exception also keeps the order away from the exchange, but it is not
             # "refused" in the documented way
             got = "exc:%s" % type(e).__name__
-        exp = refs.validate_order_ref(ot, side, price, size, liab, _ladder_set(ladder, line), currency_parameters[cur], mbv)
+        exp = refs.validate_order_ref(ot, side, price, size, liab, _ladder_set(ladder, line), currency_parameters[cur], mbv and ladder != "BETDAQ")
         acc += 1 if got is True else 0
         sig.add((ot, ladder, got is True, exp))
         if got is not exp:
@@ -351,6 +362,22 @@ def _val_cases(tier):
             cases.append(("GBP", True, "L", "BACK", p, 2.0, None, "LINE_RANGE", line))
             cases.append(("GBP", False, "L", "LAY", p, 0.5, None, "LINE_RANGE", line))
             k += 1
+    # Betdaq: every tick of its ladder, the 0.005 grid between them, float neighbours, both sides; sizes around zero / 2dp
+    import flumine.utils as fu
+
+    bdt = [float(x) for x in refs.betdaq_ticks(fu.BETDAQ_CUTOFFS)]
+    bdp = set(bdt) | {int(x) for x in bdt if float(x).is_integer()}
+    bdp |= {round(k / 200, 3) for k in range(190, 2400)} | {round(k / 20, 2) for k in range(200, 2100)} | {round(k / 2, 1) for k in range(180, 2100)}
+    bdp |= {0, 1, 1.0, 1.005, 1000.5, 1001, 1010, 999.5, 999, 995}
+    for t in bdt[::5] + bdt[-3:]:
+        bdp |= {math.nextafter(t, 0), math.nextafter(t, 2000)}
+    for p in sorted(bdp) + [None]:
+        for side in ("BACK", "LAY"):
+            cases.append(("GBP:betdaq", True, "L", side, p, 2.0, None, "BETDAQ", None))
+    for sz in (None, 0, -1, 0.01, 0.001, 0.005, 1.999, 2.001, 0.1 + 0.2, 10, 1e-9):
+        for p in (1.01, 2.0, 1000, 2.005):
+            for mbv in (True, False):
+                cases.append(("GBP:betdaq", mbv, "L", "BACK", p, sz, None, "BETDAQ", None))
     # (ii) size / liability grid x a few prices
     sstep = 1 if fine else 7
     sizes = [round(k / 1000, 3) for k in range(0, 3001, sstep)] + [None, -1, -0.01, 1e-9, 10, 9.99, 10.01, 0.1 + 0.2]
@@ -515,6 +542,11 @@ def run(tier):
         r = _api_slice(lvl)
         rep.add_violations(r["violations"])
         nc += r["n"]
+        api_n = r["n"]
+    r = _api_batches()
+    rep.add_violations(r["violations"])
+    nc += r["n"]
+    rep.count("batched_transaction_orders", r["n"], mandatory=True)
     ph = [seq for k in (1, 2, 3) for seq in itertools.product(POLLS, repeat=k)]
     for r in core.pmap(_poll_histories, [ph[i::8] for i in range(8)], chunk=1):
         rep.add_violations(r["violations"])
@@ -523,7 +555,7 @@ def run(tier):
     rep.clause_evals("C17.c", nc)
     rep.count("validation_accepted", acc, mandatory=True)
     rep.count("validation_refused", nc - acc, mandatory=True)
-    rep.count("api_slice_orders", r["n"], mandatory=True)
+    rep.count("api_slice_orders", api_n, mandatory=True)
     rep.outcomes = sigs
     rep.evaluations = n_eval + nb + nc
     rep.states = n_eval + nb + len(set(map(str, cases)))
@@ -546,6 +578,57 @@ def run(tier):
         "a price is the number its shortest float repr denotes (Decimal(str(x))); mid-points within 1e-7 hundredths accept either neighbour",
     ]
     return rep.finish()
+
+
+def _api_batches():
+    """The same through batched transactions (`with market.transaction() as t`): every order of a batch is validated,
+    whatever its position and whatever happened to the orders before it in the same transaction."""
+    from betfairlightweight.metadata import currency_parameters
+    from flumine.order.order import OrderStatus
+
+    cur = currency_parameters["GBP"]
+    V = dict(side="BACK", price=2.0, size=2.0)
+    V2 = dict(side="LAY", ot="MOC", liab=10)
+    bad = [
+        dict(side="BACK", price=2.01, size=2.0),
+        dict(side="BACK", price=1001, size=2.0),
+        dict(side="BACK", price=3.0, size=2.005),
+        dict(side="BACK", price=3.0, size=0),
+        dict(side="BACK", price=2.0, size=0.5),
+        dict(side="LAY", ot="MOC", liab=9.99),
+        dict(side="LAY", ot="LOC", liab=10, price=3.02),
+        dict(side="BACK", ot="MOC", liab=0.5),
+    ]
+    batches = []
+    for b in bad:
+        batches += [[V, b], [b, V], [V, b, V2], [b, b], [V, V2, b], [b, V2, b]]
+    acts = []
+    for k, bt in enumerate(batches):
+        ex = [1] if k % 3 == 2 else []  # some batches are sent in two parts
+        acts.append(["TX", [["P", dict(t, sel=1)] for t in bt], ex])
+    spec = simx.MarketSpec(book0={1: {"atb": [[1.5, 10]], "atl": [[1000, 10]]}})
+    w = simx.SimWorld(
+        [(spec, [[1000, ["Q"]], [1000, ["Q"]]])],
+        [dict(script={(0, 0): acts}, kw=dict(max_order_exposure=None, max_selection_exposure=None, max_live_trade_count=10**6))],
+    ).run()
+    st = w.strategies[0]
+    sent = {id(o) for pk in w.packages for o in pk._orders}
+    cs = {Decimal(h) / 100 for h in refs.CLASSIC}
+    out, n = [], 0
+    first = [e for e in st.log if e[2][0] == "P"]
+    flat = [(bi, pi, t) for bi, bt in enumerate(batches) for pi, t in enumerate(bt)]
+    if len(first) != len(flat) or len(st.known) != len(flat):
+        raise core.HarnessError("batched slice: %d placements logged, %d orders, %d expected" % (len(first), len(st.known), len(flat)))
+    for (bi, pi, t), (mi, tick, act, res), o in zip(flat, first, st.known):
+        n += 1
+        exp = refs.validate_order_ref(t.get("ot", "L"), t["side"], t.get("price"), t.get("size"), t.get("liab"), cs, cur, True)
+        got = (res is True, id(o) in sent, any(o is b for b in w.all_orders()))
+        case = dict(batch=batches[bi], position=pi)
+        if exp and got != (True, True, True):
+            out.append(core.v("C17.c", ("transaction", "CLASSIC", t.get("ot", "L"), "refused-valid"), "batch %r position %d: valid order not sent: %r" % (batches[bi], pi, got), case))
+        if not exp and (got != (False, False, False) or o.status != OrderStatus.VIOLATION):
+            out.append(core.v("C17.c", ("transaction", "CLASSIC", t.get("ot", "L"), "accepted-invalid"), "batch %r position %d: invalid order returned/sent/blotter=%r status=%s" % (batches[bi], pi, got, o.status), case))
+    return dict(violations=out[:20], n=n)
 
 
 POLLS = ("ok:SEK", "ok:GBP", "fail", "fail-details")
@@ -625,6 +708,10 @@ def _poll_histories(seqs):
 
 def replay(rep):
     case = rep["case"]
+    if "batch" in case:
+        r = _api_batches()
+        print([d["detail"] for d in r["violations"]][:3] or "no violation now")
+        return 1 if r["violations"] else 0
     if "tmpl" in case:
         r = _api_slice(case.get("log_level"))
         print([d["detail"] for d in r["violations"]][:3] or "no violation now")
